@@ -6,6 +6,16 @@ VERIF = os.path.dirname(os.path.dirname(os.path.abspath(__file__)))
 
 # id -> (level category, technique, level text, level note, design ref)
 CLAIMED = {
+ "C01": ("exploration",
+         "bounded-exhaustive enumeration of built-in argument tuples, source texts, token strings, syntax trees, corpus deviations, nesting depths and JSON inputs; every case executed in a crash-isolated worker and through the real CLI",
+         "Every built-in x every argument tuple of a boundary value pool at every accepted arity; every string of length <= 3/4 over a 48-character alphabet; every token string of length <= 3/4 over a 44-token alphabet (spaced and joined); every parent x child / depth-3 tree; the corpus with every single-token deletion, replacement and insertion; 23 nesting constructs at depth 1..64; input-sized loops; JSON documents incl. function objects with valid / truncated / non-lambda sources; serde-form wasm inputs. Each case runs parse, AST conversion, evaluation, value rendering / validation / JSON round trip, formatting and the four wasm entry points inside a worker process with a 10 s cap (panic caught, abort / stack overflow / hang attributed to the case); nesting family, JSON documents and crashers also through the real `blots` binary. Oracle: a result or a reported error, never a panic / abort / hang; error spans inside the text they carry.",
+         "Library stages run on a 1 GiB stack in the worker (as the CLI's interpreter thread does); benchmark programs that legitimately run for seconds get no deviations; inputs outside the alphabets and bounds are not explored.",
+         "DESIGN.md §4 C01"),
+ "C02": ("model_checking",
+         "explicit enumeration of evaluation histories and of environment answers (HashMap iteration orders through the H1 seam, deviation-bounded); differential evaluation for double evaluation and let-abstraction",
+         "States are histories of <= 2 earlier programs (35-program alphabet) and iteration-order answer scripts with <= 2 deviations at every choice point a program reaches; each transition is a whole-program evaluation in a fresh session whose status, outputs JSON and bindings must equal the empty-history / default-order run. Every generated expression over shared list / record / string / function / number values is evaluated twice (equal results, all earlier bindings unchanged) and every assignment-free sub-expression is let-abstracted. The real binary is repeated in fresh processes (labelled repetition).",
+         "For scopes with more than 4 names only n+1 of the n! orders are offered by the seam; time_now and print are excluded as the statement says.",
+         "DESIGN.md §4 C02"),
  "C03": ("model_checking",
          "explicit-state BFS to fixpoint over statement histories of the real evaluator + reference model + stateright cross-check",
          "Every reachable session state over a 32-statement alphabet (bind, rebind, shadow, nested assignment, output, calls, failing and reserved-name statements) is enumerated to the BFS fixpoint; every transition runs one statement through get_pairs/evaluate_pairs and is checked against the immutability/scoping invariants and a reference model of the alphabet. Right level because the property is an invariant over all statement histories.",
